@@ -19,6 +19,7 @@ ap = argparse.ArgumentParser()
 ap.add_argument('--lanes', type=int, default=3)
 ap.add_argument('--neutral', default='')
 ap.add_argument('--all-checks', action='store_true')
+ap.add_argument('--laneroot', default='/tmp/matlanes')
 ap.add_argument('ids', nargs='*')
 args = ap.parse_args()
 
@@ -48,7 +49,7 @@ def run_check(verif, env, cid):
     return {'rc': rc, 'caught': rc == 1 and len(keys) > 0, 'keys': keys[:12], 'wall_s': float(wall.group(1)) if wall else None, 'tail': out[-1500:]}
 
 def lane(i):
-    root = '/tmp/matlanes/l%d' % i
+    root = '%s/l%d' % (args.laneroot, i)
     repo, verif = root + '/repo', root + '/verif'
     subprocess.run('git -C /repo worktree remove --force %s 2>/dev/null; rm -rf %s; mkdir -p %s; git -C /repo worktree add -q --detach %s HEAD' % (repo, root, root, repo), shell=True)
     subprocess.run("rsync -a --exclude out --exclude build --exclude .git --exclude seeded --exclude mutsweep/results.jsonl %s/ %s/" % (VERIF, verif), shell=True)
